@@ -388,6 +388,18 @@ impl Calibrations {
 
                 match matching_calibration {
                     Some(calibration) => {
+                        // A calibration body is unconditional, so re-entering a calibration that
+                        // is already being expanded could never terminate, even if the instruction
+                        // differs every time (`DEFCAL RX(%t) 0: RX(%t+1) 0`).
+                        let reentered = previous_calibrations.iter().any(|previous| {
+                            matches!(previous, Instruction::Gate(previous_gate)
+                                if self.get_match_for_gate(previous_gate)
+                                    .is_some_and(|c| std::ptr::eq(c, calibration)))
+                        });
+                        if reentered {
+                            return Err(ProgramError::RecursiveCalibration(instruction.clone()));
+                        }
+
                         let mut qubit_expansions: HashMap<&String, Qubit> = HashMap::new();
                         for (index, calibration_qubit) in
                             calibration.identifier.qubits.iter().enumerate()
@@ -438,6 +450,15 @@ impl Calibrations {
 
                 match matching_calibration {
                     Some(calibration) => {
+                        let reentered = previous_calibrations.iter().any(|previous| {
+                            matches!(previous, Instruction::Measurement(previous_measurement)
+                                if self.get_match_for_measurement(previous_measurement)
+                                    .is_some_and(|c| std::ptr::eq(c, calibration)))
+                        });
+                        if reentered {
+                            return Err(ProgramError::RecursiveCalibration(instruction.clone()));
+                        }
+
                         let mut qubit_expansions: HashMap<&String, Qubit> = HashMap::new();
                         if let Qubit::Variable(identifier) = &calibration.identifier.qubit {
                             qubit_expansions.insert(identifier, measurement.qubit.clone());
